@@ -66,6 +66,12 @@ def run(ctx):
             "main:\n addi sp, sp, -2147483648\n sw t0, -2147483648(sp)\n lw t1, 2147483647(sp)\n addi sp, sp, -1\n",
             "main:\n jal f\nf:\n addi sp, sp, 2147483647\n addi sp, sp, 2147483647\n sw ra, 2147483647(sp)\n ret\n",
             "﻿main:\n li a7, 10\n ecall\n", "main:\x00\n li\x00 t0, 1\n", "\r\r\r\n\r", "main:\n\tli\ta7,10\r\n\tecall\r\n"]
+    # lines mixing multi-byte white space, tabs and errors: the excerpt printer works on columns
+    printer = ['.data\n.string "\u3000\u3000\u3000" @\n', 'main:\n\tli t0, 5 \u00a0\u00a0 foo\n', '\u2003li t9, 5\n li \u3000 t0 $\n',
+               'main:\n li t0, 5 # \u3000\u3000\n addi zero, t0, 1 # \u00e9\u00e9\u00e9\n', '.asciz "\u00e9\u00e9" ;\n', "\t\t.word 1 '\u4e2d\n",
+               'x: .string "\t\u3000" ($\n', ' \t \u00a0main: frob\n']
+    for t in printer:
+        stores.append((pipe.single(t), "a.s", "printer"))
     for t in edge:
         stores.append((pipe.single(t), "a.s", "edge"))
     big = gen.render(rng, gen.program(rng, 1500))
@@ -126,7 +132,7 @@ def run(ctx):
     cli_cases = []
     pick = [s for s in stores if s[2] in ("includes",)][:12 * k] + \
            [s for s in stores if s[2].startswith("corpus") and not s[2].startswith(("corpus:d21", "corpus:d31", "corpus:d32"))][::4] + \
-           [s for s in stores if s[2] in ("mutated", "soup", "raw", "edge")][::9]
+           [s for s in stores if s[2] in ("mutated", "soup", "raw", "edge")][::9] + [s for s in stores if s[2] == "printer"]
     cli_runs = 0
     for ci, (files, base, tag) in enumerate(pick):
         d = os.path.join(work, "c%d" % ci)
